@@ -474,8 +474,8 @@ def _subsets(n):
 def _gen_map(rng, big=False):
     while True:
         req = mapgen.gen_request(rng, storages=("dict",), allow_internal=False,   # internal axes: C01's subject
-                                 max_size=4 if big else 3)
-        if mapgen.request_size(req) <= (60 if big else 30) and (not big or mapgen.request_size(req) >= 6):
+                                 max_size=3)
+        if mapgen.request_size(req) <= (40 if big else 30) and (not big or mapgen.request_size(req) >= 6):
             break
     req = copy.deepcopy(req)
     for kv in req["inputs"]:
